@@ -24,7 +24,22 @@ func c02concurrent(c *ctx, k int) {
 	p1 := r.bytes(1 + r.intn(20))
 	r0, r1 := make(chan string, 1), make(chan string, 1)
 	go func() { r0 <- sb.Write(base, 0, append([]byte(nil), p0...)) }()
-	time.Sleep(20 * time.Millisecond) // the first deliverer is at the pipe's mutex now
+	// the first deliverer must be inside streamBuffer.Write (it holds recvM and waits for the pipe's mutex) before the second
+	// one starts: decided by looking at the mutex, not by the clock (a 20 ms sleep let the second deliverer win the race for
+	// recvM on a machine loaded to several times its cores - its frame was then parked, correctly, and reported as an alarm)
+	inside := false
+	for i := 0; i < 200000 && !inside; i++ {
+		inside = sb.RecvLocked()
+		if !inside {
+			time.Sleep(50 * time.Microsecond)
+		}
+	}
+	if !inside {
+		release()
+		<-r0
+		c.o.N("C02 concurrent pair: the first deliverer never entered Write - case skipped")
+		return
+	}
 	cl := uint8(0)
 	if closing {
 		cl = 1
@@ -66,7 +81,7 @@ func c02concurrent(c *ctx, k int) {
 	if bad != "" {
 		c.o.V("C02 concurrent-delivery-of-consecutive-frames", map[string]any{"case": k, "base": base, "second_frame_closing": closing, "what": bad,
 			"first_result": res0, "second_result": res1, "got": hx(got), "want": hx(want),
-			"replay": "hold the pipe mutex; goroutine 1: streamBuffer.Write(frame k); 20 ms; goroutine 2: streamBuffer.Write(frame k+1); 60 ms; release"})
+			"replay": "hold the pipe mutex; goroutine 1: streamBuffer.Write(frame k); once it holds recvM, goroutine 2: streamBuffer.Write(frame k+1); 60 ms; release"})
 	}
 	c.o.stat("concurrent_pairs", 1)
 	c.o.case_(fmt.Sprintf("conc/%d/%v", k, closing), true)
